@@ -715,6 +715,8 @@ def build_message(rng, tmpl, counts=None, text_mode="text", override=None):
     counts = counts if counts is not None else gen_counts(rng, tmpl)
     msg = Message(tmpl.name)
     for b in tmpl.blocks:
+        if counts[b.name] is None:
+            continue                     # block omitted altogether (no block list at all)
         msg.create_block_list(b.name)
         for i in range(counts[b.name]):
             vals = {}
@@ -819,13 +821,33 @@ def _observe_form(ser, msg, form):
     return st, out, tree, dst, back
 
 
-def message_events(ser, tmpl, msg, form):
+def _fingerprint(tree, evs):
+    import hashlib
+    back = [[e["blk"], e["idx"], [[r[0], r[4]] for r in e["vars"]]] for e in evs[1:]]
+    return hashlib.sha1(common.skey([proj(tree), evs[0]["bb"], back]).encode()).hexdigest()
+
+
+def message_events(ser, tmpl, msg, form, prof="gen", hist=(), fresh=None):
+    """One message through serializer instance `ser`.  With `fresh` (a factory of new instances) the same message
+    is also sent through a fresh instance and both results are fingerprinted (history independence)."""
+    evs = _message_events(ser, tmpl, msg, form)
+    evs[0].update({"prof": prof, "hist": [list(h) for h in hist], "fp": "", "fp0": ""})
+    if fresh is not None:
+        evs0 = _message_events(fresh(), tmpl, msg, form)
+        evs[0]["fp"] = evs[0].pop("_fp")
+        evs[0]["fp0"] = evs0[0].pop("_fp")
+    evs[0].pop("_fp", None)
+    return evs
+
+
+def _message_events(ser, tmpl, msg, form):
     ev = {"ev": "Msg", "name": tmpl.name, "form": form, "st": "ok", "dst": "ok", "lname": "", "top": [], "ob": _block_counts(msg.blocks),
-          "lb": [], "bb": []}
+          "lb": [], "bb": [], "_fp": "-"}
     st, out, tree, dst, back = _observe_form(ser, msg, form)
     ev["st"], ev["dst"] = st, dst
     if st != "ok":
         ev["exc"] = out
+        ev["_fp"] = "raise " + str(out)
         return [ev]
     if dst != "ok":
         ev["exc"] = back
@@ -855,10 +877,11 @@ def message_events(ser, tmpl, msg, form):
             for name in extra:
                 rows.append([name, "?", {"k": "extra", "p": []}, V("extra", []), {"k": "extra", "p": []}])
             evs.append({"ev": "Blk", "blk": b.name, "idx": i, "vars": rows})
+    ev["_fp"] = _fingerprint(tree, evs)
     return evs
 
 
-MSG_CFG = "SPECIFICATION TraceSpec\nCONSTANTS Dom <- TDom\nPOSTCONDITION TraceAccepted\nCHECK_DEADLOCK FALSE\n"
+MSG_CFG = "SPECIFICATION TraceSpec\nCONSTANTS Dom <- TDom\n HistTypes <- NoTypes\n Memo = \"none\" MaxHist = 0\nPOSTCONDITION TraceAccepted\nCHECK_DEADLOCK FALSE\n"
 
 
 def classify_msg(evs, tmpl):
@@ -959,84 +982,292 @@ def _messages(chk: Check, per_template: int):
 
 
 def _find_var(tmpls, ty):
+    """A real template variable of this type; preferably in a block that may legitimately be empty or
+    omitted (a Variable block that is not the first one), so that message profiles mean something."""
+    from hippolyzer.lib.base.message.msgtypes import MsgBlockType
+    best = None
     for t in tmpls:
-        for b in t.blocks:
+        for bi, b in enumerate(t.blocks):
             for v in b.variables:
                 if tyname(v) == ty and not (ty == "Fixed" and v.size != 4):
-                    return t, b, v
-    return None
+                    rank = (2 if bi > 0 and b.block_type == MsgBlockType.MBT_VARIABLE else 1 if bi > 0 else 0)
+                    if best is None or rank > best[0]:
+                        best = (rank, t, b, v)
+                    if rank == 2:
+                        return t, b, v
+    return best[1:] if best else None
 
 
-def _carrier_machine(chk: Check):
-    """LLSDMessage_MBT: exhaustive model + every edge replayed through the real serializer."""
+def _profile_counts(rng, t, b, prof):
+    """Block multiplicities of a message whose watched block b has profile full | empty | cut."""
+    from hippolyzer.lib.base.message.msgtypes import MsgBlockType
+    base = gen_counts(rng, t, var_counts=(1, 2))
+    counts, cut = {}, False
+    for bb in t.blocks:
+        if bb.name == b.name:
+            if prof == "cut" or (prof == "empty" and bb.block_type != MsgBlockType.MBT_VARIABLE):
+                cut = True
+            elif prof == "empty":
+                counts[bb.name] = 0
+                continue
+        counts[bb.name] = None if cut else base[bb.name]
+    return counts
+
+
+_B1 = None
+M_ABSENT = {"k": "absent", "p": []}
+
+
+def _replay_b1_chunk(edge_ids):
+    """Every edge of the carrier/instance machine: its BFS path is replayed on ONE fresh serializer instance."""
     import random
     from hippolyzer.lib.base import llsd
     from hippolyzer.lib.base.message.llsd_msg_serializer import LLSDMessageSerializer
     from hippolyzer.lib.base.message.data_packer import LLSDDataPacker
     from hippolyzer.lib.base.message.msgtypes import MsgType
-    invs = ["DomainOK", "CarrierIsLLSD", "RoundTrip", "NumberKept", "WideIsBinary"]
-    cfg = "SPECIFICATION MSpec\nCONSTANTS Dom <- MCDom\n" + "".join("INVARIANT %s\n" % i for i in invs)
-    common.model_check(chk, "LLSDMessage_MBT", cfg, "LLSDMessage carrier machine")
-    recs = common.export_records(chk, "LLSDMessage_MBT", "SPECIFICATION MSpec\nCONSTANTS Dom <- MCDom\n", "LLSDMessage_MBT")
-    g = common.Graph(recs)
-    tmpls = templates()
-    ser = LLSDMessageSerializer()
-    rng = random.Random(1)
-    targets = {}
-    n_edges = 0
-    for ei in g.reachable_edges():
+    g, targets = _B1
+    bads = []
+    for ei in edge_ids:
         e = g.edges[ei]
+        path = g.path_to(e["_s"]) + [e]
         src, dst, act = e["src"], e["dst"], e["act"]["n"]
         ty = src["ty"]
-        n_edges += 1
-        chk.count()
-        if ty not in targets:
-            targets[ty] = _find_var(tmpls, ty)
         tgt = targets[ty]
         val = mv_to_py(ty, src["orig"])
-        hist = [p["act"]["n"] for p in g.path_to(e["_s"])] + [act]
-        feats = {"kind": "llsd-msg-b1", "op": act, "ty": ty}
+        hist = [p["act"]["n"] + (":" + p["act"]["p"] if "p" in p["act"] else "") for p in path]
+        profs = ">".join(list(dst["hist"]) + [dst["prof"]])
 
         def bad(what, exp, got):
             cls = "quaternion-pack-raises" if ty == "LLQuaternion" and "has no attribute 'data'" in repr(got) else "other"
-            chk.violation("B1 LLSDMessage: %s differs from specification" % what, dict(feats, **{"class": cls}),
-                          {"history": hist, "ty": ty, "orig": src["orig"], "expected": exp, "impl": repr(got)[:300]})
+            bads.append(("B1 LLSDMessage: %s differs from specification" % what,
+                         {"kind": "llsd-msg-b1", "op": act, "ty": ty, "class": cls, "profiles": profs},
+                         {"history": hist, "ty": ty, "orig": src["orig"], "expected": exp, "impl": repr(got)[:300]}))
         if tgt is None:
-            # no template variable of this type (S64): the packer table itself
+            # no template variable of this type (S64): the packer table itself (no instance, no history)
             mt = MsgType["MVT_" + ty]
-            if act == "Serialize":
+            if act == "Serialize" and dst["prof"] == "full":
                 got = impl_call(lambda: proj(LLSDDataPacker.pack(val, mt)))
                 if got != ("ok", dst["carried"]):
                     bad("LLSDDataPacker.pack", dst["carried"], got)
-            elif act == "Deserialize":
+            elif act == "Deserialize" and dst["prof"] == "full":
                 got = impl_call(lambda: py_to_mv(ty, LLSDDataPacker.unpack(unproj(src["carried"]), mt)))
                 if got != ("ok", dst["result"]):
                     bad("LLSDDataPacker.unpack", dst["result"], got)
             continue
         t, b, v = tgt
-        counts = {bb.name: max(1, n) for bb, n in ((bb, gen_counts(rng, t)[bb.name]) for bb in t.blocks)}
-        msg = build_message(rng, t, counts, override=(b.name, v.name, val))
-        via_xml = src["xml"] or act == "XmlHop"
-        st, out, tree, dstat, back = _observe_form(ser, msg, "xml" if via_xml else "dict")
-        if st != "ok":
-            bad("serialize", dst["carried"], (st, out))
+        rng = random.Random(ei)
+        ser = LLSDMessageSerializer()         # ONE instance for the whole history
+
+        def build(prof):
+            return build_message(rng, t, _profile_counts(rng, t, b, prof), override=(b.name, v.name, val))
+        msg = build(path[0]["src"]["prof"])
+        form = tree = back = None
+        failed = None
+        for k, pe in enumerate(path):
+            a = pe["act"]["n"]
+            if a == "NextMessage":
+                msg = build(pe["act"]["p"])
+                form = tree = back = None
+                continue
+            if a == "Serialize":
+                st, form = impl_call(ser.serialize, msg, True)
+                tree = form
+            elif a == "XmlHop":
+                st, form = impl_call(ser.serialize, msg)
+                tree = llsd.parse_xml(form) if st == "ok" else None
+            else:
+                st, back = impl_call(ser.deserialize, form)
+            if st != "ok":
+                failed = (a, form if a != "Deserialize" else back)
+                break
+        if failed:
+            bad(failed[0] + " raised", dst["carried"] if act != "Deserialize" else dst["result"], failed)
             continue
-        got = impl_call(lambda: proj(tree["body"][b.name][0][v.name]))
+        if act == "NextMessage":
+            continue            # nothing observable: the next message has only been handed over
         if act in ("Serialize", "XmlHop"):
+            def carried():
+                insts = tree["body"].get(b.name, [])
+                return proj(insts[0][v.name]) if insts else V("absent", [])
+            got = impl_call(carried)
             if got != ("ok", dst["carried"]):
                 bad("carrier after " + act, dst["carried"], got)
         else:
-            if dstat != "ok":
-                bad("deserialize", dst["result"], (dstat, back))
-                continue
-            got = impl_call(lambda: py_to_mv(ty, back.blocks[b.name][0].vars[v.name]))
+            def result():
+                insts = back.blocks.get(b.name, [])
+                return py_to_mv(ty, insts[0].vars[v.name]) if insts else M_ABSENT
+            got = impl_call(result)
             if got != ("ok", dst["result"]):
                 bad("value after Deserialize", dst["result"], got)
-        chk.nontrivial(("b1", ei))
+    return len(edge_ids), bads
+
+
+def _carrier_machine(chk: Check, max_hist: int):
+    """LLSDMessage_MBT: carrier + instance-history machine, exhaustively; every edge replayed (with its history,
+    on one real serializer instance) through the real LLSDMessageSerializer."""
+    global _B1
+    invs = ["DomainOK", "CarrierIsLLSD", "RoundTrip", "NumberKept", "WideIsBinary", "HistoryIndependent"]
+
+    def cfg(memo, with_invs=True):
+        return ("SPECIFICATION MSpec\nCONSTANTS Dom <- MCDom\n HistTypes <- MCHistTypes\n Memo = \"%s\" MaxHist = %d\n" % (memo, max_hist)
+                + ("".join("INVARIANT %s\n" % i for i in invs) if with_invs else ""))
+    common.model_check(chk, "LLSDMessage_MBT", cfg("none"), "LLSDMessage instance machine, no memory")
+    common.model_check(chk, "LLSDMessage_MBT", cfg("template"), "LLSDMessage instance machine, per-type memo from the template")
+    # the law bites: an instance that remembers what the FIRST body of a type contained is refuted by TLC
+    cfgp = os.path.join(chk.scratch, "lm-firstbody.cfg")
+    with open(cfgp, "w") as f:
+        f.write(cfg("firstbody"))
+    res = common.run_tlc(os.path.join(common.SPECS, "LLSDMessage_MBT.tla"), cfgp, workers=1, scratch=chk.scratch)
+    chk.add_tlc(res, "LLSDMessage instance machine, memo from first body (must be refuted)")
+    if not ({"HistoryIndependent", "CarrierIsLLSD"} & set(res.violated)):
+        raise common.MachineryError("HistoryIndependent does not refute a first-body memo: %r" % res.violated)
+    recs = common.export_records(chk, "LLSDMessage_MBT", cfg("none", False), "LLSDMessage_MBT")
+    g = common.Graph(recs)
+    tmpls = templates()
+    targets = {ty: _find_var(tmpls, ty) for ty in sorted(set(TYNAMES.values()))}
+    _B1 = (g, targets)
+    ids = g.reachable_edges()
+    results = common.parallel_map(_replay_b1_chunk, common.chunked(ids, common.NCPU * 2))
+    n_edges = sum(r[0] for r in results)
+    chk.count(n_edges)
+    for _, bads in results:
+        for what, feats, detail in bads:
+            chk.violation(what, feats, detail)
+    with_hist = 0
+    for ei in ids:
+        e = g.edges[ei]
+        if e["dst"]["hist"] and e["act"]["n"] != "NextMessage":
+            with_hist += 1
+            chk.nontrivial(("b1", ei))
     chk.cov["traces_validated_against_impl"] += n_edges
     chk.cov["b1_edges_replayed"] = n_edges
-    e = g.edges[len(g.edges) // 2]
-    chk.sample({"binding": "B1 edge (spec->code)", "act": e["act"], "src": e["src"], "dst": e["dst"]})
+    chk.cov["b1_edges_with_instance_history"] = with_hist
+    e = next(x for x in g.edges if len(x["dst"]["hist"]) >= 1 and x["act"]["n"] == "Serialize" and x["dst"]["prof"] == "full")
+    chk.sample({"binding": "B1 edge (spec->code), replayed after its history on one instance", "act": e["act"],
+                "history": e["dst"]["hist"], "profile": e["dst"]["prof"], "ty": e["dst"]["ty"], "expected_carrier": e["dst"]["carried"]})
+
+
+# ---- B2 histories: per template, one long-lived instance fed messages of different block multiplicities
+PROFILES = ["head", "full2", "empty", "cut1", "other", "full1"]
+
+
+def _template_profile_message(rng, tmpls, ti, prof):
+    from hippolyzer.lib.base.message.msgtypes import MsgBlockType
+    if prof == "other":
+        ti = (ti + 1) % len(tmpls)
+        prof = "full1"
+    t = tmpls[ti]
+    counts = {}
+    for bi, b in enumerate(t.blocks):
+        var = b.block_type == MsgBlockType.MBT_VARIABLE
+        n = b.number if b.block_type == MsgBlockType.MBT_MULTIPLE else 1
+        if prof == "head" and bi > 0:
+            n = None
+        elif prof == "cut1" and bi == len(t.blocks) - 1 and bi > 0:
+            n = None
+        elif var:
+            n = {"full2": 2, "empty": 0}.get(prof, 1)
+        counts[b.name] = n
+    return t, build_message(rng, t, counts)
+
+
+def _euler_walk(k):
+    """A closed walk over the complete digraph on k nodes (loops included): every ordered pair is an edge once."""
+    adj = {i: [j for j in range(k)] for i in range(k)}
+    stack, walk = [0], []
+    while stack:
+        v = stack[-1]
+        if adj[v]:
+            stack.append(adj[v].pop())
+        else:
+            walk.append(stack.pop())
+    return walk[::-1]
+
+
+_HIST_JOBS = None
+
+
+def _run_hist_job(job_no):
+    import random
+    from hippolyzer.lib.base.message.llsd_msg_serializer import LLSDMessageSerializer
+    tmpls = templates()
+    out = []
+    for tid, ti, seed, seq in _HIST_JOBS[job_no]:
+        rng = random.Random(seed)
+        ser = LLSDMessageSerializer()           # the long-lived instance of this trace
+        hist, evs = [], []
+        for k, (prof, judged, form) in enumerate(seq):
+            t, msg = _template_profile_message(rng, tmpls, ti, prof)
+            if judged:
+                evs += message_events(ser, t, msg, form, prof=prof, hist=hist, fresh=LLSDMessageSerializer)
+            else:
+                st, out_ = impl_call(ser.serialize, msg, form == "dict")
+                if st == "ok":
+                    impl_call(ser.deserialize, out_)
+                evs.append({"ev": "Handled", "name": t.name, "prof": prof})
+            hist.append([t.name, prof])
+        out.append((tid, ti, [s_[0] for s_ in seq], evs))
+    return out
+
+
+def _histories(chk: Check, thorough: bool):
+    global _HIST_JOBS
+    tmpls = templates()
+    profs = PROFILES if thorough else PROFILES[:5]
+    walk = _euler_walk(len(profs))                 # k*k + 1 nodes, all ordered pairs
+    items = []
+    for ti in range(len(tmpls)):
+        seed = chk.rng.getrandbits(48)
+        if thorough:
+            # the whole walk on one instance, every message judged ...
+            seq = [(profs[n], True, "dict" if i % 2 else "xml") for i, n in enumerate(walk)]
+            items.append((len(items), ti, seed, seq))
+            # ... and every ordered pair on a fresh instance (first message only handled, second judged)
+            for a in profs:
+                for b in profs:
+                    items.append((len(items), ti, seed + 1, [(a, False, "dict"), (b, True, "dict"), (b, True, "xml")]))
+        else:
+            # a window of the walk, shifted per template: across the templates every ordered pair of profiles occurs
+            off = (ti * 5) % (len(walk) - 1)
+            win = [walk[(off + i) % (len(walk) - 1)] for i in range(6)]
+            seq = [(profs[n], True, "dict" if (i + ti) % 2 else "xml") for i, n in enumerate(win)]
+            items.append((len(items), ti, seed, seq))
+    _HIST_JOBS = common.chunked(items, common.NCPU * 2)
+    res = [x for part in common.parallel_map(_run_hist_job, list(range(len(_HIST_JOBS)))) for x in part]
+    traces = [evs for _, _, _, evs in res]
+    acc, rej, results = common.validate_traces("LLSDMessage_Trace", MSG_CFG, traces, chk.scratch, shards=10, tag="lhist")
+    fails = {}
+    for r in results:
+        chk.add_tlc(r, "LLSDMessage_Trace histories")
+        for rec in r.printed():
+            if isinstance(rec, dict) and "fail" in rec:
+                fails.setdefault(rec["tid"], set()).add(rec["fail"])
+    chk.cov["traces_validated_against_impl"] += len(traces)
+    chk.count(sum(len(t) for t in traces))
+    pairs = set()
+    for tid, ti, seq, evs in res:
+        pairs |= set(zip(seq, seq[1:]))
+        chk.nontrivial(("hist", tid))
+    chk.cov["history_profile_pairs_exercised"] = len(pairs)
+    chk.cov["history_traces"] = len(traces)
+    for ti_, j, ev in rej:
+        chk.violation("history trace rejected by LLSDMessage_Trace", {"kind": "llsd-msg-history", "class": "trace-rejected"},
+                      {"message": tmpls[res[ti_][1]].name, "event": common._clip(ev)})
+    for n, clauses in sorted(fails.items()):
+        tid, ti, seq, evs = res[n]
+        heads = [e for e in evs if e["ev"] == "Msg"]
+        # first judged message of the trace that diverges (classification only: fingerprint / raise)
+        first = next((e for e in heads if e["fp"] != e["fp0"] or e["st"] != "ok" or e["dst"] != "ok"), heads[0])
+        cls = classify_msg([first], tmpls[ti])
+        if cls == "other" and first["fp"] != first["fp0"]:
+            cls = "history-dependent"
+        chk.violation("LLSD message form on a long-lived serializer instance: %s" % cls,
+                      {"kind": "llsd-msg-history", "class": cls, "after": ">".join(h[1] for h in first["hist"][-2:]), "profile": first["prof"]},
+                      {"message": first["name"], "form": first["form"], "failed_clauses": sorted(clauses), "instance_history": first["hist"],
+                       "exc": first.get("exc")})
+    ex = next((r for r in res if len(r[3]) > 4), res[0])
+    chk.sample({"binding": "B2 history trace (one instance)", "profiles": ex[2], "first_events": [
+        {k: v for k, v in e.items() if k in ("ev", "name", "prof", "form", "hist", "fp", "fp0")} for e in ex[3] if e["ev"] != "Blk"][:4]})
 
 
 def run(chk: Check):
@@ -1066,11 +1297,13 @@ def run(chk: Check):
 
 def _run(chk: Check):
     if chk.tier == "quick":
-        _carrier_machine(chk)
+        _carrier_machine(chk, 2)
+        _histories(chk, False)
         _messages(chk, 3)
         _codec(chk, False, 400, 3)
     else:
-        _carrier_machine(chk)
+        _carrier_machine(chk, 3)
+        _histories(chk, True)
         _messages(chk, 18)
         _codec(chk, True, 10000, 4)
     chk.cov["exhaustive"] = True
